@@ -1258,6 +1258,11 @@ func (p *PubSub) handleRemoveSubscription(sub *Subscription) {
 		return
 	}
 
+	if _, ok := subs[sub]; !ok {
+		// already cancelled; its reader may be looking at sub.err by now
+		return
+	}
+
 	sub.err = ErrSubscriptionCancelled
 	sub.close()
 	delete(subs, sub)
